@@ -221,10 +221,31 @@ func (f *Fabric) deliver(x, y int, ann *annData, remove bool) {
 	}
 	var addrs []net.IP
 	if !remove {
-		addrs = []net.IP{net.ParseIP("127.0.0.1")}
+		// an IPv6 address first (nothing listens there: the hub sorts IPv4 to the front and falls through)
+		addrs = []net.IP{net.ParseIP("::1"), net.ParseIP("127.0.0.1")}
 	}
 	// the entry x learns about y points at the proxy x->y
 	cb(txtElements(ann.txt), ann.name, "", addrs, px.Port, remove)
+}
+
+// Readdr: a further record for y (another address) reaches x, as avahi reports one record per address.
+func (f *Fabric) Readdr(x, y, n int) {
+	f.mu.Lock()
+	nx, ny := f.Nodes[x], f.Nodes[y]
+	px := f.Proxies[[2]int{x, y}]
+	sees := f.sees[[2]int{x, y}]
+	f.mu.Unlock()
+	ny.Prov.mu.Lock()
+	ann := ny.Prov.ann
+	ny.Prov.mu.Unlock()
+	nx.Prov.mu.Lock()
+	cb, down := nx.Prov.cb, nx.Prov.down
+	nx.Prov.mu.Unlock()
+	if cb == nil || down || px == nil || ann == nil || !sees {
+		return
+	}
+	extra := []net.IP{net.ParseIP(fmt.Sprintf("2001:db8::%x", n%200+1)), net.ParseIP(fmt.Sprintf("127.0.1.%d", n%200+1))}
+	cb(txtElements(ann.txt), ann.name, "", extra[n%2:n%2+1], px.Port, false)
 }
 
 func (f *Fabric) announced(y int) {
